@@ -1,5 +1,6 @@
 import GrVerif.Proofs.Lz4
 import GrVerif.Proofs.Lz4Sound
+import GrVerif.Proofs.Lz4Complete
 /-!
 # C14 — compressed tables are transparent; the LZ4 decoder is exact and bounded
 
@@ -9,8 +10,9 @@ half in the direction the property states it – `lz4_sound`: whenever the decod
 of the LZ4 block format (`Spec/Lz4Ref.lean`, written from the format description: unbounded lengths, a growing output list,
 byte-wise match copy, no word copies, no buffer) accepts the block and produces exactly those bytes; `table_is_reference_decoding`:
 a compressed table is replaced only by the reference decoding of its payload.  The reference decoder itself is compared with
-liblz4 on every generated block by the correspondence check.  Not a theorem: the converse for blocks that keep the decoder's
-stricter end-of-block rules (`lz4_complete`; exploration over randomised valid encodings).
+liblz4 on every generated block by the correspondence check.  `lz4_complete` is the converse: a block the format defines, which
+ends with at least five literals (the format's rule for encoders) and is shorter than its plaintext, is decoded – to exactly
+its plaintext – when the output buffer has the plaintext's size; `table_transparent` lifts it to `Face::Table::decompress`.
 -/
 set_option linter.unusedSimpArgs false
 namespace GrVerif.Props.C14
@@ -129,9 +131,42 @@ def returned (r : Except Fault (Option Nat × Buf)) : Option (Nat × List Nat) :
   match r with | .ok (some n, o) => some (n, o.toList) | _ => none
 example : (returned (decompress exampleBlock (Array.replicate 37 0xAA))).map (·.1) = some 37 ∧
     (returned (decompress exampleBlock (Array.replicate 37 0xAA))).map (·.2) = Lz4Ref.decompress exampleBlock ∧
+    Lz4Ref.finalLits exampleBlock exampleBlock.size 0 = some 5 ∧
     Lz4Ref.decompress exampleBlock = some [103, 114, 97, 112, 104, 105, 116, 101, 32, 103, 114, 97, 112, 104, 105, 116, 101, 32, 103, 114, 97,
       112, 104, 105, 116, 101, 32, 103, 114, 97, 112, 104, 105, 116, 101, 33, 33] := by
   decide +kernel
+
+/-- **lz4_complete.**  Every valid block decodes: if the block format assigns the plaintext `R` to `src` (the reference decoder accepts it), the
+block ends with at least five literals – "the last 5 bytes of input are always literals", the one rule of the format for encoders that
+this decoder insists on –, the block is shorter than `R` and at least `MINSRCSIZE` bytes long, and the output buffer has exactly the size
+of `R` (below 4 GiB), then `lz4::decompress` returns that size and the buffer holds `R`: none of the decoder's space tests (the aligned
+literal copy, `LASTLITERALS`, `MINCODA`, the match bound in wrapped `size_t`/`unsigned` arithmetic) refuses a valid block, whatever the
+parse – greedy or not, overlapping matches, long length continuations. -/
+theorem lz4_complete (src out : Buf) (hbyte : ∀ i (h : i < src.size), src[i] < 256) (R : List Nat) (k : Nat)
+    (hdec : Lz4Ref.decompress src = some R) (hk : Lz4Ref.finalLits src src.size 0 = some k) (hk5 : 5 ≤ k)
+    (hout : out.size = R.length) (hshrink : src.size < R.length) (hmin : Gen.MINSRCSIZE ≤ src.size) (hR32 : R.length < 2 ^ 32 - 8) :
+    ∃ out', decompress src out = .ok (some R.length, out') ∧ out'.toList = R := by
+  have hdec' : Lz4Ref.decode src src.size 0 [] = some R := hdec
+  have hpos : 0 < src.size := by simp only [Gen.MINSRCSIZE] at hmin; omega
+  obtain ⟨out', h⟩ := loop_complete src hbyte src.size 0 0 out.size 0 0 out [] R k hpos (by omega) rfl hdec' (by omega) hk hk5 hR32
+  have hd : decompress src out = .ok (some R.length, out') := by
+    unfold decompress
+    rw [if_neg (by omega)]
+    exact h
+  refine ⟨out', hd, ?_⟩
+  obtain ⟨R', e1, e2, e3⟩ := lz4_sound src out hbyte (by omega) _ _ hd
+  rw [hdec] at e1
+  cases e1
+  obtain ⟨r, hr, hsz, _⟩ := lz4_in_bounds src out
+  rw [hd] at hr
+  cases hr
+  apply List.ext_getElem
+  · simp only [Array.length_toList]; simp only [] at hsz; omega
+  · intro i h1 h2
+    have := e3 i h2
+    simp only [Array.getD_eq_getD_getElem?, List.getD_eq_getElem?_getD] at this
+    simp only [Array.length_toList] at h1
+    simpa [h1, h2] using this
 
 /-- **table_is_reference_decoding.**  A compressed table is replaced only by the reference decoding of its payload: the bytes the rest of
 the loader sees are the bytes the LZ4 block format assigns to the compressed data, whatever the allocator left in the buffer. -/
@@ -182,6 +217,42 @@ theorem table_is_reference_decoding (tbl : Buf) (fill : Nat) (t : Buf) (hbyte : 
                 simp only [Array.getD_eq_getD_getElem?, List.getD_eq_getElem?_getD] at this
                 simp only [Array.length_toList] at h1
                 simpa [h1, h2] using this
+
+/-- **table_transparent.**  A table stored in the compressed layout – version word, scheme LZ4 with the plaintext's size, any valid block
+for a plaintext that begins with the same version word – is replaced by exactly that plaintext: the rest of the loader sees the bytes of
+the uncompressed table. -/
+theorem table_transparent (tbl : Buf) (fill : Nat) (hbyte : ∀ i (h : i < tbl.size), tbl[i] < 256) (R : List Nat) (k version hdr : Nat)
+    (h20 : Gen.minCompressedTable ≤ tbl.size) (hv : be32 tbl 0 = .ok version) (hh : be32 tbl 4 = .ok hdr)
+    (hscheme : hdr >>> Gen.schemeShift = Gen.schemeLZ4) (husize : hdr &&& Gen.sizeMask = R.length)
+    (hdec : Lz4Ref.decompress (tbl.extract 8 tbl.size) = some R)
+    (hk : Lz4Ref.finalLits (tbl.extract 8 tbl.size) (tbl.extract 8 tbl.size).size 0 = some k) (hk5 : 5 ≤ k)
+    (hshrink : tbl.size - 8 < R.length) (hmin : Gen.MINSRCSIZE ≤ tbl.size - 8) (hver : be32 R.toArray 0 = .ok version) :
+    tableDecompress tbl fill = .ok (.replaced R.toArray) := by
+  have hsz8 : (tbl.extract 8 tbl.size).size = tbl.size - 8 := by simp only [Array.size_extract]; omega
+  have hb' : ∀ i (h : i < (tbl.extract 8 tbl.size).size), (tbl.extract 8 tbl.size)[i] < 256 := by
+    intro i hi
+    simp only [Array.getElem_extract]
+    exact hbyte _ _
+  have hmask : hdr &&& Gen.sizeMask ≤ Gen.sizeMask := Nat.and_le_right
+  have hR27 : R.length < 2 ^ 32 - 8 := by rw [← husize]; simp only [Gen.sizeMask] at hmask ⊢; omega
+  obtain ⟨out', hd, hl⟩ := lz4_complete (tbl.extract 8 tbl.size)
+    ((((Array.replicate (hdr &&& Gen.sizeMask) fill).set! 0 0).set! 1 0).set! 2 0 |>.set! 3 0) hb' R k hdec hk hk5
+    (by simp [husize]) (by omega) (by omega) hR27
+  have hout : out' = R.toArray := by
+    apply Array.ext'
+    simpa using hl
+  rw [husize] at hd
+  unfold tableDecompress
+  have h20' : ¬ tbl.size < Gen.minCompressedTable := by omega
+  simp only [h20', if_false, hv, hh, bind, Except.bind, pure, Except.pure]
+  have s0 : ¬ hdr >>> Gen.schemeShift = Gen.schemeNONE := by rw [hscheme]; decide
+  have s1 : ¬ hdr >>> Gen.schemeShift ≠ Gen.schemeLZ4 := by rw [hscheme]; simp
+  have su : ¬ hdr &&& Gen.sizeMask < Gen.minUncompressed := by simp only [Gen.minUncompressed, Gen.MINSRCSIZE] at hmin ⊢; omega
+  simp only [s0, s1, su, if_false, husize]
+  have su' : ¬ R.length < Gen.minUncompressed := by rw [← husize]; exact su
+  simp only [su', if_false, hd, ne_eq, not_true_eq_false]
+  rw [hout, hver]
+  simp
 
 /-- the 5/27-bit split of the compression word (as extracted from `Face.cpp`) -/
 theorem header_split (hdr : Nat) :
